@@ -60,10 +60,15 @@ def step(cr, cands, cap, tally, fairness):
     g = cr.GLOBAL_PRIOR_COMB_COUNTS
     before = dict(g)
     args = SimpleNamespace(combination_number_upper_bound=cap)
-    ok, ret = safe(cr.prior_combinations_sample, list(cands), args)
+    passed = list(cands)
+    ok, ret = safe(cr.prior_combinations_sample, passed, args)
     if not ok:
         return [f'exception {ret}']
     ret = list(ret)
+    if passed != list(cands):
+        fails.append(f'the candidate list passed in was modified in place: {passed} (was {list(cands)})')
+    if args.combination_number_upper_bound != cap:
+        fails.append(f'the cap in the shared arguments was rewritten: {args.combination_number_upper_bound} (was {cap})')
     want = min(cap, len(cands))
     dupfree = len(set(cands)) == len(cands)
     if len(ret) != want:
